@@ -8,7 +8,7 @@ Ids == 1..(Cardinality(Reqs) + 1)           \* one id more than requests: an id 
 NextReq == IF \E r \in Reqs : st[r] = "new" THEN CHOOSE r \in Reqs : st[r] = "new" /\ \A q \in Reqs : st[q] = "new" => r <= q ELSE 0
 FreshId == CHOOSE i \in Ids : i \notin usedIds /\ \A j \in Ids : j \notin usedIds => i <= j
 
-Msgs == {[k |-> "resp", id |-> i, status |-> s, hashok |-> h] : i \in (usedIds \cup {Cardinality(Reqs) + 1}), s \in {0, 257}, h \in BOOLEAN}
+Msgs == {[k |-> "resp", id |-> i, status |-> s, hashok |-> h, fits |-> f] : i \in (usedIds \cup {Cardinality(Reqs) + 1}), s \in {0, 257}, h \in BOOLEAN, f \in BOOLEAN}
         \cup {[k |-> "errpdu", status |-> 258], [k |-> "badmac"], [k |-> "garbage"]}
 
 MCInit == Init /\ nmsg = 0
